@@ -52,6 +52,7 @@ func Run(ctx *core.Ctx) {
 	phases := []func() []*report{
 		h.ScopeModel,
 		h.Families,
+		h.Compositions,
 		func() []*report { return h.RandomExprs(ctx.Pick(4000, 60000)) },
 		func() []*report { return h.RandomProgs(ctx.Pick(1500, 30000)) },
 	}
